@@ -52,19 +52,52 @@ Proof.
     + simpl. rewrite IHm by (simpl in *; lia). ring.
 Qed.
 
+(* a 1-D tensor moved from axis 0 to axis 0 is itself *)
+Lemma moveaxis_00_vec (t : tensor) n : wf t -> shape t = [n] -> moveaxis zero t 0 0 = t.
+Proof.
+  intros W Hs. apply tensor_ext with (d := zero); [apply wf_moveaxis | exact W | rewrite shape_moveaxis, Hs; reflexivity |].
+  intros idx Hi. rewrite shape_moveaxis, Hs in Hi. cbn [nth remove_nth insert_at] in Hi.
+  destruct idx as [|i [|? ?]]; simpl in Hi; try tauto.
+  unfold moveaxis. rewrite Hs. cbn [nth remove_nth insert_at]. rewrite get_tabulate by (simpl; tauto). reflexivity.
+Qed.
+
+(* order 1: the vector as a single column *)
+Lemma cp_to_unfolded_order1 (w : option tensor) (fa : tensor) shp R :
+  validate_cp w [fa] = Ok (shp, R) -> Forall (fun f => ndim f = 2) [fa] -> 0 < prod shp ->
+  exists t u, cp_to_tensor Op w [fa] None = Ok t /\ cp_to_unfolded Op w [fa] 0 = Ok u /\ unfold zero t 0 = Ok u.
+Proof.
+  intros Hv H2 Hpos.
+  pose proof (valid_mats F _ _ _ _ Hv H2) as Hmats. inversion Hmats as [|? n ? ns Hfa Hrest]; subst. inversion Hrest; subst.
+  destruct (cp_to_tensor_spec F Op Rth w [fa] [n] R Hv H2) as (t & Ht & Hst & Hgt).
+  assert (Wt : wf t).
+  { revert Ht. unfold cp_to_tensor. rewrite Hv. cbn [rbind fst length Nat.eqb]. intros H; injection H as <-. apply wf_tabulate. }
+  assert (Hn : n <> 0) by (simpl in Hpos; lia).
+  exists t, (reshape [n; 1] t). split; [exact Ht|]. split.
+  - unfold cp_to_unfolded. rewrite Hv. cbn [rbind fst length Nat.eqb]. rewrite Ht. cbn [rbind].
+    change [None; Some 1] with (map Some (@nil nat) ++ [None] ++ map Some [1]).
+    rewrite reshape_spec_one_none.
+    + rewrite Hst. cbn [prod fold_right app]. replace (n * 1 / (1 * (1 * 1))) with n by (rewrite Nat.mul_1_r, Nat.div_1_r; reflexivity). reflexivity.
+    + cbn [prod fold_right]. lia.
+    + cbn [prod fold_right]. apply Nat.mod_1_r.
+  - rewrite unfold_eq by (auto; unfold ndim; rewrite Hst; simpl; auto). rewrite Hst. cbn [nth remove_nth prod fold_right].
+    rewrite (moveaxis_00_vec t n Wt Hst). reflexivity.
+Qed.
+
 Theorem cp_to_unfolded_spec (w : option tensor) fs shp R m :
   validate_cp w fs = Ok (shp, R) -> Forall (fun f => ndim f = 2) fs ->
-  2 <= length fs -> m < length fs -> 0 < prod shp ->
+  m < length fs -> 0 < prod shp ->
   exists t u, cp_to_tensor Op w fs None = Ok t /\ cp_to_unfolded Op w fs m = Ok u /\ unfold zero t m = Ok u.
 Proof.
-  intros Hv H2 Hord Hm Hpos.
+  intros Hv H2 Hm Hpos.
+  destruct fs as [|fa [|fb rest0]]; [simpl in Hm; lia | |].
+  { (* order 1 *) simpl in Hm. replace m with 0 by lia. now apply (cp_to_unfolded_order1 w fa shp R). }
+  set (fs := fa :: fb :: rest0) in *. assert (Hord : 2 <= length fs) by (simpl; lia).
   destruct (cp_to_tensor_spec F Op Rth w fs shp R Hv H2) as (t & Ht & Hst & Hgt).
   pose proof (valid_mats F _ _ _ _ Hv H2) as Hmats.
   pose proof (mats_length F _ _ _ Hmats) as Hlen.
   assert (Wt : wf t).
   { (* the dense tensor is produced by fold = moveaxis of a reshape, or by tabulate *)
-    revert Ht. unfold cp_to_tensor. rewrite Hv. cbn [rbind fst].
-    destruct fs as [|fa [|fb rest]]; simpl in Hord; try lia.
+    revert Ht. unfold cp_to_tensor. rewrite Hv. cbn [rbind fst]. unfold fs in *. clear fs. rename rest0 into rest.
     inversion Hmats as [|? n ? ns Hfa Hrest]; subst. inversion Hrest as [|? n' ? ns' Hfb Hrest']; subst.
     replace (length (n :: n' :: ns') =? 1) with false by reflexivity.
     destruct (khatri_rao Op (remove_nth 0 (fa :: fb :: rest))) as [K|]; cbn [rbind]; [|discriminate].
@@ -74,7 +107,9 @@ Proof.
     intros H; injection H as <-. apply wf_moveaxis. }
   exists t.
   (* the unfolded view *)
-  unfold cp_to_unfolded. rewrite Hv. cbn [rbind]. apply Nat.ltb_lt in Hm as Hm'. rewrite Hm'.
+  unfold cp_to_unfolded. rewrite Hv. cbn [rbind fst].
+  replace (length shp =? 1) with false by (symmetry; apply Nat.eqb_neq; lia).
+  apply Nat.ltb_lt in Hm as Hm'. rewrite Hm'.
   assert (Hm2 : mats R (remove_nth m fs) (remove_nth m shp)) by (now apply Forall2_remove_nth).
   assert (Hne : remove_nth m fs <> []).
   { intros E. apply (f_equal (@length _)) in E. rewrite remove_nth_length in E by lia. simpl in E. lia. }
@@ -141,14 +176,29 @@ Proof.
 Qed.
 
 Theorem cp_to_tensor_masked_spec (w : option tensor) fs shp R (mask : tensor) :
-  validate_cp w fs = Ok (shp, R) -> Forall (fun f => ndim f = 2) fs -> 2 <= length fs ->
+  validate_cp w fs = Ok (shp, R) -> Forall (fun f => ndim f = 2) fs ->
   shape mask = shp -> wf mask ->
   exists t, cp_to_tensor Op w fs (Some mask) = Ok t /\ shape t = shp /\
     forall idx, inb shp idx -> get zero t idx = get zero mask idx *f cp_entry w fs R idx.
 Proof.
-  intros Hv H2 Hord Hms Wm. pose proof (valid_mats F _ _ _ _ Hv H2) as Hmats.
+  intros Hv H2 Hms Wm. pose proof (valid_mats F _ _ _ _ Hv H2) as Hmats.
   unfold cp_to_tensor. rewrite Hv. cbn [rbind fst].
-  destruct fs as [|fa [|fb rest]]; simpl in Hord; try lia.
+  destruct fs as [|fa [|fb rest]]; [inversion Hmats; subst; discriminate Hv | |].
+  { (* order 1: the vector times the flattened mask *)
+    assert (exists n, shp = [n] /\ shape fa = [n; R]) as (n & -> & Hfa).
+    { clear Hms. inversion Hmats as [|? n ? ns Hfa Hrest]; subst. inversion Hrest; subst. eauto. }
+    cbn [length Nat.eqb].
+    assert (Hf0 : shape (opt_scale Op w fa) = [n; R]) by (now apply (shape_opt_scale F)).
+    assert (Hl : length (data mask) = n) by (unfold wf in Wm; rewrite Wm, Hms; simpl; lia).
+    unfold mask_vec, sum_axis1, nrows, ncols. rewrite Hf0. cbn [shape tabulate nth]. rewrite Hl, Nat.eqb_refl.
+    eexists. split; [reflexivity|]. split; [reflexivity|].
+    intros idx Hi. destruct idx as [|i [|? ?]]; simpl in Hi; try tauto.
+    rewrite get_tabulate by (simpl; tauto). unfold ix. cbn [nth]. rewrite (get1_tab F Op) by tauto. unfold ix. cbn [nth].
+    unfold FactorizedProofs.cp_entry. rewrite <- (fsumn_scale_l F Op Rth).
+    rewrite <- (fsumn_scale_r F Op Rth). apply (fsumn_ext F Op); intros r Hr.
+    rewrite (get2_opt_scale F Op Rth w fa n R) by (auto; tauto).
+    unfold get. rewrite Hms. cbn [ravel prod fold_right FactorizedProofs.prod_entries].
+    replace (i * 1 + 0) with i by lia. ring. }
   destruct shp as [|n [|n' ns']]; try (inversion Hmats as [|? ? ? ? Hfa Hrest]; inversion Hrest; fail).
   inversion Hmats as [|? ? ? ? Hfa Hrest]. inversion Hrest as [|? ? ? ? Hfb Hrest']. clear Hmats Hrest. subst.
   replace (length (n :: n' :: ns') =? 1) with false by reflexivity.
@@ -177,29 +227,12 @@ Qed.
 
 End P.
 
-(* ---------- the two order-1 defects of the code, exhibited on the model at Z ---------- *)
+(* ---------- the two former order-1 defects (repaired in /repo by 5ac4e66 and b1a796c), as executed regression examples ---------- *)
 Definition wA : tensor Z := mk [3; 2] [1; 2; 3; 4; 5; 6]%Z.
 Definition wW : tensor Z := mk [2] [2; -1]%Z.
 Definition wM : tensor Z := mk [3] [1; 0; 1]%Z.
 
-Lemma cp_unfolded_order1_refuted :
-  exists (w : option (tensor Z)) fs shp R t,
-    validate_cp w fs = Ok (shp, R) /\ Forall (fun f => ndim f = 2) fs /\ 0 < prod shp /\
-    cp_to_tensor Zops w fs None = Ok t /\ cp_to_unfolded Zops w fs 0 = Err /\ unfold 0%Z t 0 <> Err.
-Proof.
-  exists (Some wW), [wA], [3], 2, (mk [3] [0; 2; 4]%Z). repeat split; try (vm_compute; reflexivity).
-  - repeat constructor.
-  - vm_compute. lia.
-  - vm_compute. discriminate.
-Qed.
-
-Lemma cp_mask_order1_refuted :
-  exists (w : option (tensor Z)) fs shp R mask t,
-    validate_cp w fs = Ok (shp, R) /\ Forall (fun f => ndim f = 2) fs /\ shape mask = shp /\ wf mask /\
-    cp_to_tensor Zops w fs (Some mask) = Ok t /\
-    get 0%Z t [1%nat] <> (get 0%Z mask [1%nat] * cp_entry Z Zops w fs R [1%nat])%Z.
-Proof.
-  exists (Some wW), [wA], [3], 2, wM, (mk [3] [0; 2; 4]%Z). repeat split; try (vm_compute; reflexivity).
-  - repeat constructor.
-  - vm_compute. discriminate.
-Qed.
+Example cp_unfolded_order1_example : cp_to_unfolded Zops (Some wW) [wA] 0 = Ok (mk [3; 1] [0; 2; 4]%Z).
+Proof. vm_compute. reflexivity. Qed.
+Example cp_mask_order1_example : cp_to_tensor Zops (Some wW) [wA] (Some wM) = Ok (mk [3] [0; 0; 4]%Z).
+Proof. vm_compute. reflexivity. Qed.
